@@ -1172,7 +1172,7 @@ def random_world(seed, idx, near_border=False):
                 x = border - d
         return (x, y, x + w, y + h)
 
-    ck = rng.choice(['bbox', 'bbox', 'poly', 'poly', 'multi', 'srs-bbox', 'srs-poly'])
+    ck = rng.choice(['bbox', 'bbox', 'poly', 'poly', 'multi', 'srs-bbox', 'srs-poly', 'srs-raw'])
     if g.srs != SRS(3857) and ck.startswith('srs'):
         ck = 'poly'
     desc = dict(grid=gdesc, cov=ck)
@@ -1197,7 +1197,13 @@ def random_world(seed, idx, near_border=False):
         # coverage given in EPSG:4326 and transformed to the grid SRS as mapproxy-seed does
         b = rbox(1.3)
         ll = g.srs.transform_bbox_to(SRS(4326), b)
-        if ck == 'srs-bbox':
+        if ck == 'srs-raw':
+            # the coverage stays in EPSG:4326: the walker's bbox and every tile test go through the SRS
+            # transformation (mercator <-> lat/long maps axis parallel rectangles to axis parallel rectangles)
+            cov = BBOXCoverage(tuple(ll), SRS(4326))
+            geom = shapely.geometry.box(*SRS(4326).transform_bbox_to(g.srs, ll))
+            desc['llbbox'] = list(ll)
+        elif ck == 'srs-bbox':
             cov = BBOXCoverage(tuple(ll), SRS(4326)).transform_to(g.srs)
             geom = shapely.geometry.box(*cov.bbox)
             desc['llbbox'] = list(ll)
@@ -1561,5 +1567,7 @@ def replay(ctx, data):
     batch = [{'w': 1, 'ev': ev} for ev in traces]
     r, rejected = validate_traces(ctx, 'replay', [w], batch, excused=[1] if it.excused else [])
     report_rejections(ctx, r, rejected, traces, meta, 'replay')
-    print('replay: %d violation(s)' % len(ctx.violations))
+    print('replay: %d violation(s), %d known-finding hit(s)' % (len(ctx.violations), sum(ctx.known_hits.values())))
+    import shutil
+    shutil.rmtree(ctx.workdir, ignore_errors=True)
     return 1 if ctx.violations else 0
